@@ -307,6 +307,8 @@ pub fn slow_subset(ops: &TypeOps) -> bool {
 		ops.name.contains("TCompact") ||
 		ops.name.contains("TEncAs") ||
 		ops.name.contains("TSkip") ||
+		ops.name.contains("TCompactZ") ||
+		ops.name.contains("TEncAsZ") ||
 		ops.has_tag("zst-wire") ||
 		ops.has_tag("custom-fixed") ||
 		ops.name.starts_with('[') ||
